@@ -32,7 +32,7 @@ EXPLANATION = (
     'only together with FINITE). R2–R5: DOM/ORD/WMC rules of DESIGN §4.3.')
 
 CLASSES = [
-    ('DIM', r'^cmp\[\+ .*(HnswVectorIndex\.dimension - slice::len\(arg:embedding\)|slice::len\(arg:embedding\) - .*HnswVectorIndex\.dimension) != 0\]$'),
+    ('DIM', r'^!cmp\[\+ .*(HnswVectorIndex\.dimension - slice::len\(arg:embedding\)|slice::len\(arg:embedding\) - .*HnswVectorIndex\.dimension) == 0\]$'),
     ('FINITE', r'^bool\[.*Iterator>::any\(slice::iter\(arg:embedding\), closure:.*\)\]$'),
     ('FULL', r'^cmp\[\+ .*HnswVectorIndex\.current_count - .*HnswVectorIndex\.max_elements >= 0\]$'),
     ('NORM', r'^!bool\[RangeInclusive::contains\(RangeInclusive::new\(.*NORMALIZATION_NORM_SQ_MIN, .*NORMALIZATION_NORM_SQ_MAX\), simd::sum_squares_f32\(arg:embedding\)\)\]$'),
@@ -148,8 +148,8 @@ def run(ctx, prog):
             continue
         if cls == 'DIM':
             g, p, why = find_guard(ins, first_app,
-                                   r'^cmp\[\+ .*(HnswBackend::dimension\(arg:self\) - (?:Vec|slice)[\w:<>, ]*::len\(arg:embedding\)|len\(arg:embedding\) - HnswBackend::dimension\(arg:self\)) != 0\]$',
-                                   exempt_rx=r'^!cmp\[\+ HnswBackend::dimension\(arg:self\) != 0\]$')
+                                   r'^!cmp\[\+ .*(HnswBackend::dimension\(arg:self\) - (?:Vec|slice)[\w:<>, ]*::len\(arg:embedding\)|len\(arg:embedding\) - HnswBackend::dimension\(arg:self\)) == 0\]$',
+                                   exempt_rx=r'^cmp\[\+ HnswBackend::dimension\(arg:self\) == 0\]$')
             ctx.inst('C03.R1', ins.short, 'class DIM checked before the log', g is not None,
                      ('guard %s at %s' % (p, ins.loc_of(g))) if g is not None else 'no pre-append dimension guard: ' + why)
         elif cls == 'FINITE':
